@@ -53,6 +53,28 @@ def run(ctx):
                 r.violation(A, "%s compares UseTrees by path only" % short(body.id),
                             "two use-trees are compared with == (path only) without same_visibility and an attrs test in the "
                             "same body: trees differing in visibility/attributes are treated as the same import", [c.loc()])
+    # (3) nor may the key of a map / set be the *rendered text* of a UseTree: Display leaves out the alias of self / super /
+    # crate segments, the visibility and the attributes
+    for c in p.all_calls("rustfmt_nightly"):
+        if "imports::" not in c.fn.id:
+            continue
+        last = c.name.rsplit("::", 1)[-1]
+        if last not in ("entry", "insert", "contains", "contains_key", "get", "get_mut", "remove") or len(c.args) < 2:
+            continue
+        if not any(x in c.name for x in ("HashMap", "HashSet", "BTreeMap", "BTreeSet")):
+            continue
+        if c.args[1][0] == "k":
+            continue
+        d = c.fn.derived_from(c.args[1][1][0])
+        rendered = [x for x in d["calls"] if x.name.endswith("ToString>::to_string") or (x.declared or "").endswith("ToString::to_string")]
+        rendered = [x for x in rendered if any("imports::UseTree" in g for g in x.ga)]
+        if rendered:
+            n += 1
+            r.instance(A, c.key(), "violation", c.loc(), "key derives from UseTree::to_string")
+            r.violation(A, "%s keys a map by the rendered text of a UseTree" % short(c.fn.root or c.fn.id),
+                        "the key of %s is `tree.to_string()`: Display omits the alias of `self` / `super` / `crate` segments (and the "
+                        "visibility and attributes), so `use std::fmt::{self as f}` and `use std::fmt::{self as g}` share a key and one "
+                        "of them is dropped as a duplicate" % short(c.name), [c.loc()])
     r.rules[A]["floor"] = 0
 
     B = r.rule("R10-b", "normalize_use_trees_with_granularity: the test contains_comment ∨ attrs.is_some() dominates flatten / "
